@@ -1911,3 +1911,29 @@ def _final(sim, O):
     else:
       O.fail("raise_not_descheduled", "a task raised %s: %s but the "
              "scheduler did not report de-scheduling it" % missing[0])
+
+
+# ---------------------------------------------------------------------------
+# threaded select hub: a fraction of the seeds run the thread-world variant
+# ---------------------------------------------------------------------------
+from checks import c06t as _T      # noqa: E402
+
+_gen_inline, _run_inline, _hint_inline = gen_plan, run_plan, minimise_hint
+
+
+def gen_plan(seed, tier):          # noqa: F811
+  if seed % 6 == 0:
+    return _T.gen_plan(seed, tier)
+  return _gen_inline(seed, tier)
+
+
+def run_plan(plan):                # noqa: F811
+  if plan.get("cfg", {}).get("threaded_hub"):
+    return _T.run_plan(plan)
+  return _run_inline(plan)
+
+
+def minimise_hint(plan):           # noqa: F811
+  if plan.get("cfg", {}).get("threaded_hub"):
+    return []
+  return _hint_inline(plan)
